@@ -413,3 +413,183 @@ def _(v):
         except Exception as ex:
             off.append((text, repr(ex)[:160]))
     v.prove("missing_rate_constant.control_with_constant_is_accepted", not off, detail=repr(off[:2]))
+
+
+@harness("C06", "euler_step_for_trace_species_and_constants_over_many_decades", functions=[ODE + ":get_odesys", ODE + ":get_odesys.<locals>.max_euler_step_cb"], kind="data")
+def _(v):
+    """'the advertised safe explicit-Euler step keeps every concentration inside [0, elemental upper bound]' under the quantifier 'rate
+    constants over many decades, random initial state': safety is a RELATIVE statement (a species at 1e-15 M that falls at 1e-9 M/s is used
+    up after 1e-6 s just as one at 1 M that falls at 1e6 M/s), so no net rate is small enough in ABSOLUTE terms to be left out of the step.
+    First-order networks with a trace species next to an ordinary slow bimolecular step (two separate element pools), concentrations from
+    1e-15 to 1e-3 and constants from 1e-3 to 1e6; a reversible pair close to (but not at) its equilibrium at trace level; and a pair
+    exactly at equilibrium (no net rate at all: nothing limits the step, the cap 1 is returned). Rates, bounds and the largest safe step
+    are written out by hand from mass action and the compositions."""
+    from chempy.chemistry import Substance, Reaction
+    from chempy.reactionsystem import ReactionSystem
+    from chempy.kinetics.ode import get_odesys
+    # element 1: A, B one atom each; element 2: P one atom, Q two.  A -> B (kA), 2 P -> Q (kP = 0.8), [P] = 0.1, [B] = [Q] = 0:
+    # f_A = -kA [A] = -f_B, f_P = -2 kP [P]^2 = -0.016, f_Q = 0.008; bounds: A, B <= [A] + [B]; P <= [P] + 2 [Q]; Q <= ([P] + 2 [Q]) / 2.
+    # A is used up after 1 / kA (B reaches its bound at the same moment), P after 0.1 / 0.016 = 6.25 (Q likewise): largest safe step min(1, 1 / kA)
+    unsafe, small = [], []
+
+    def judge(label, cb, c0, f, ub):
+        want = min([1.0] + [c0[k] / -f[k] for k in c0 if f[k] < 0] + [(ub[k] - c0[k]) / f[k] for k in c0 if f[k] > 0])
+        for form in (c0, [c0[k] for k in order]):
+            h = float(cb(0, form))
+            if not (h > 0 and h <= (1 + 1e-9) * want):      # beyond `want` the limiting species has left [0, bound]
+                unsafe.append((label, c0, h, want))
+            if not h >= (1 - 1e-9) * want:
+                small.append((label, c0, h, want))
+    try:
+        subs = [Substance("A", composition={1: 1}), Substance("B", composition={1: 1}), Substance("P", composition={2: 1}), Substance("Q", composition={2: 2})]
+        for kA in (1e-3, 1.0, 1e3, 1e6):
+            rsys = ReactionSystem([Reaction({"A": 1}, {"B": 1}, kA), Reaction({"P": 2}, {"Q": 1}, 0.8)], subs)
+            odesys, extra = get_odesys(rsys)
+            order = list(odesys.names)
+            for a0 in (1e-15, 1e-12, 1e-9, 1e-6, 1e-3):
+                c0 = {"A": a0, "B": 0.0, "P": 0.1, "Q": 0.0}
+                f = {"A": -kA * a0, "B": kA * a0, "P": -2 * 0.8 * 0.1 ** 2, "Q": 0.8 * 0.1 ** 2}
+                judge("trace A -> B, kA=%g" % kA, extra["max_euler_step_cb"], c0, f, {"A": a0, "B": a0, "P": 0.1, "Q": 0.05})
+                # control in the other direction: a trace species that is NOT short-lived. Trace P next to its dimer, no A, B at all:
+                # f_P = -1.6 a0^2, f_Q = 0.8 a0^2, P lasts 1 / (1.6 a0) >= 625 (Q has room a0 / 2: the same), nothing limits the step below the cap 1
+                c1 = {"A": 0.0, "B": 0.0, "P": a0, "Q": 0.25}
+                judge("trace P, kA=%g" % kA, extra["max_euler_step_cb"], c1, {"A": 0.0, "B": 0.0, "P": -1.6 * a0 ** 2, "Q": 0.8 * a0 ** 2},
+                      {"A": 0.0, "B": 0.0, "P": a0 + 0.5, "Q": a0 / 2 + 0.25})
+        # reversible pair A <-> B, both constants 1e4, [A] = 3e-13, [B] = 1e-13: f_A = -1e4 (3e-13 - 1e-13) = -2e-9 = -f_B; A lasts 3e-13 / 2e-9 = 1.5e-4,
+        # B has room [A] = 3e-13 below its bound: the same 1.5e-4.  With 1e-7 and 3e-7 M: f = -2e-3, again 1.5e-4.
+        subs2 = [Substance("A", composition={1: 1}), Substance("B", composition={1: 1})]
+        odesys, extra = get_odesys(ReactionSystem([Reaction({"A": 1}, {"B": 1}, 1e4), Reaction({"B": 1}, {"A": 1}, 1e4)], subs2))
+        order = list(odesys.names)
+        for a0, b0 in ((3e-13, 1e-13), (3e-7, 1e-7), (1e-13, 3e-13)):
+            fA = -1e4 * a0 + 1e4 * b0
+            judge("A <-> B near equilibrium", extra["max_euler_step_cb"], {"A": a0, "B": b0}, {"A": fA, "B": -fA}, {"A": a0 + b0, "B": a0 + b0})
+        # exactly at equilibrium (2 * 0.5 = 4 * 0.25, exact in binary): no net rate, the cap
+        odesys, extra = get_odesys(ReactionSystem([Reaction({"A": 1}, {"B": 1}, 2.0), Reaction({"B": 1}, {"A": 1}, 4.0)], subs2))
+        order = list(odesys.names)
+        judge("A <-> B at equilibrium", extra["max_euler_step_cb"], {"A": 0.5, "B": 0.25}, {"A": 0.0, "B": 0.0}, {"A": 0.75, "B": 0.75})
+    except Exception as ex:
+        unsafe.append(repr(ex)[:200])
+        small.append(repr(ex)[:200])
+    v.prove("no_net_rate_is_too_small_to_limit_the_step", not unsafe, detail="(label, state, step returned, largest safe step) " + repr(unsafe[:3]))
+    v.prove("step_is_as_large_as_safety_allows", not small, detail="(label, state, step returned, largest safe step) " + repr(small[:3]))
+
+
+@harness("C06", "result_arrays_with_units_for_single_runs_and_scans", functions=[ODE + ":get_odesys", ODE + ":get_odesys.<locals>.post_processor", ODE + ":get_odesys.<locals>.<lambda>",
+                                                                                 "chempy.units:to_unitless", "chempy.reactionsystem:ReactionSystem.from_string"], kind="data")
+def _(v):
+    """'agree with the exact solution ... from text input through to the result arrays', with a unit registry and for EVERY way the initial state
+    (or the rate constants) can be handed to integrate: one run (dict or list of scalars) or several runs in one call (one entry of the dict an
+    array, or a table with one row per run), each entry in its own compatible unit (M, mM, uM; 1/s, 1/min).  Every run starts from the state
+    that was given (first row, converted by hand) and follows the closed form of the chain A -> B -> C (k1 = 0.5/s, k2 = 6/min = 0.1/s):
+    A = A0 e^(-k1 t), B = B0 e^(-k2 t) + A0 k1 / (k2 - k1) (e^(-k1 t) - e^(-k2 t)), C = A0 + B0 + C0 - A - B; and of the bimolecular step
+    A + B -> C (k = 2/(M s)): C - C0 = A0 B0 (1 - E) / (A0 - B0 E), E = e^(-(A0 - B0) k t).  Both in the requested output units and in
+    those of the registry (SI: mol/m3 = 1e-3 M).  Also, without the integrator: a table of scalar quantities is converted entry by entry."""
+    import math
+    import warnings
+    import numpy as np
+    from chempy.chemistry import Substance, Reaction
+    from chempy.reactionsystem import ReactionSystem
+    from chempy.kinetics.ode import get_odesys
+    from chempy.kinetics.rates import MassAction
+    from chempy.units import SI_base_registry, default_units as u, to_unitless
+    M, mM, uM = u.molar, u.millimolar, u.micromolar
+    tout = [0.0, 1.0, 4.0, 12.0]     # seconds
+    kw = dict(integrator="scipy", atol=1e-11, rtol=1e-11, nsteps=50000)
+
+    def chain(c, t, k1=0.5, k2=0.1):
+        a = c[0] * math.exp(-k1 * t)
+        b = c[1] * math.exp(-k2 * t) + c[0] * k1 / (k2 - k1) * (math.exp(-k1 * t) - math.exp(-k2 * t))
+        return [a, b, sum(c) - a - b]
+
+    def bimolecular(c, t, k=2.0):
+        e = math.exp(-(c[0] - c[1]) * k * t)
+        x = c[0] * c[1] * (1 - e) / (c[0] - c[1] * e)
+        return [c[0] - x, c[1] - x, c[2] + x]
+
+    def compare(label, odesys, names, c0, states, exact, problems, params=None, conc_unit=None, per_M=1.0, exact_kw=None):
+        """states: the initial state of every run in molar, by hand; per_M: value of 1 M in the unit the result arrays are to be in"""
+        try:
+            with warnings.catch_warnings():
+                warnings.simplefilter("ignore")
+                res = odesys.integrate(tout * u.second, c0, *([params] if params is not None else []), **kw)
+            runs = res if isinstance(res, (list, tuple)) else [res]
+            if len(runs) != len(states):
+                problems.append((label, "%d runs for %d states" % (len(runs), len(states))))
+                return
+            for i, (r, st) in enumerate(zip(runs, states)):
+                cols = [list(r.odesys.names).index(k) for k in names]
+                y = np.asarray(r.yout.rescale(conc_unit).magnitude, dtype=float)[:, cols]
+                x = np.asarray(r.xout.rescale(u.second).magnitude, dtype=float)
+                ref = np.array([exact(st, t, **(exact_kw[i] if exact_kw else {})) for t in tout]) * per_M
+                scale = sum(st) * per_M
+                if not (r.info["success"] and x.shape == (len(tout),) and np.allclose(x, tout, rtol=1e-12, atol=1e-12)):
+                    problems.append((label, i, "times", x.tolist()))
+                elif not (y.shape == ref.shape and np.allclose(y[0], ref[0], rtol=1e-12, atol=1e-12 * scale)):
+                    problems.append((label, i, "first row %r, state given %r" % (y[0].tolist(), ref[0].tolist())))
+                elif not np.allclose(y, ref, rtol=0, atol=1e-7 * scale):
+                    problems.append((label, i, "last row %r, exact %r" % (y[-1].tolist(), ref[-1].tolist())))
+        except Exception as ex:
+            problems.append((label, repr(ex)[:200]))
+
+    names = ["A", "B", "C"]
+    forms = [   # (label, initial state as handed over, the runs in molar by hand)
+        ("one_run.dict_mixed_units", {"A": 1.0 * M, "B": 200 * mM, "C": 5e4 * uM}, [[1.0, 0.2, 0.05]]),
+        ("one_run.list_mixed_units", [250 * mM, 0.5 * M, 0 * uM], [[0.25, 0.5, 0.0]]),
+        ("scan.first_species_varied_others_in_smaller_units", {"A": [1.0, 2.0, 0.5] * M, "B": 200 * mM, "C": 5e4 * uM}, [[1.0, 0.2, 0.05], [2.0, 0.2, 0.05], [0.5, 0.2, 0.05]]),
+        ("scan.first_species_in_the_smaller_unit", {"A": [300, 1500] * mM, "B": 0.75 * M, "C": 0.125 * M}, [[0.3, 0.75, 0.125], [1.5, 0.75, 0.125]]),
+        ("scan.second_species_varied", {"A": 1.0 * M, "B": [200, 100] * mM, "C": 5e4 * uM}, [[1.0, 0.2, 0.05], [1.0, 0.1, 0.05]]),
+        ("scan.one_unit_throughout", {"A": [1.0, 0.25] * M, "B": 0.5 * M, "C": 0.0 * M}, [[1.0, 0.5, 0.0], [0.25, 0.5, 0.0]]),
+        ("table.one_row_per_run", [[1.0 * M, 200 * mM, 5e4 * uM], [2.0 * M, 100 * mM, 0 * M], [5e5 * uM, 0.75 * M, 250 * mM]], [[1.0, 0.2, 0.05], [2.0, 0.1, 0.0], [0.5, 0.75, 0.25]]),
+    ]
+    first_order, registry_units, second_order, constants = [], [], [], []
+    try:
+        rsys = ReactionSystem.from_string("A -> B; 0.5/second\nB -> C; 6/minute", substance_factory=Substance)
+        in_M = get_odesys(rsys, unit_registry=SI_base_registry, output_conc_unit=M, output_time_unit=u.minute)[0]
+        in_SI = get_odesys(rsys, unit_registry=SI_base_registry)[0]
+    except Exception as ex:
+        in_M = in_SI = None
+        first_order.append(repr(ex)[:200])
+        registry_units.append(repr(ex)[:200])
+    for label, c0, states in forms:
+        if in_M is not None:
+            compare(label, in_M, names, c0, states, chain, first_order, conc_unit=M)
+            compare(label, in_SI, names, c0, states, chain, registry_units, conc_unit=u.mole / u.metre ** 3, per_M=1000.0)
+    v.prove("first_order_chain.every_run_starts_from_the_given_state_and_follows_the_closed_form", not first_order, detail=repr(first_order[:3]))
+    v.prove("first_order_chain.the_same_in_registry_units", not registry_units, detail=repr(registry_units[:3]))
+    try:
+        bi = get_odesys(ReactionSystem.from_string("A + B -> C; 2/molar/second", substance_factory=Substance), unit_registry=SI_base_registry, output_conc_unit=mM)[0]
+        for label, c0, states in forms:
+            compare(label, bi, names, c0, states, bimolecular, second_order, conc_unit=mM, per_M=1000.0)
+    except Exception as ex:
+        second_order.append(repr(ex)[:200])
+    v.prove("bimolecular_step.every_run_starts_from_the_given_state_and_follows_the_closed_form", not second_order, detail=repr(second_order[:3]))
+    # the rate constants given with the call (include_params=False), one of them varied, each in its own unit: run i uses the i-th value
+    try:
+        subs = [Substance(s) for s in names]
+        rs = ReactionSystem([Reaction({"A": 1}, {"B": 1}, MassAction([0.5 / u.second], unique_keys=["k1"])), Reaction({"B": 1}, {"C": 1}, MassAction([6 / u.minute], unique_keys=["k2"]))], subs)
+        by_call = get_odesys(rs, unit_registry=SI_base_registry, include_params=False, output_conc_unit=M)[0]
+        c0, st = {"A": 1.0 * M, "B": 200 * mM, "C": 5e4 * uM}, [1.0, 0.2, 0.05]
+        for label, par, ks in (("one_run", {"k1": 15 / u.minute, "k2": 0.2 / u.second}, [dict(k1=0.25, k2=0.2)]),
+                               ("scan.k1_varied_in_per_second_k2_in_per_minute", {"k1": [0.5, 1.0, 0.25] / u.second, "k2": 6 / u.minute}, [dict(k1=0.5, k2=0.1), dict(k1=1.0, k2=0.1), dict(k1=0.25, k2=0.1)]),
+                               ("scan.k2_varied_in_per_minute_k1_in_per_second", {"k1": 0.5 / u.second, "k2": [6, 12] / u.minute}, [dict(k1=0.5, k2=0.1), dict(k1=0.5, k2=0.2)])):
+            compare(label, by_call, names, c0, [st] * len(ks), chain, constants, params=par, conc_unit=M, exact_kw=ks)
+    except Exception as ex:
+        constants.append(repr(ex)[:200])
+    v.prove("first_order_chain.constants_given_with_the_call_in_their_own_units", not constants, detail=repr(constants[:3]))
+    # without the integrator: a table (rows = runs) of scalar concentrations, each in its own unit, is the table of their values in the asked unit
+    tables = []
+    rows = [[1.0 * M, 200 * mM, 5e4 * uM], [250 * mM, 0.5 * M, 0 * uM]]
+    by_hand = {"M": (M, [[1.0, 0.2, 0.05], [0.25, 0.5, 0.0]]), "mM": (mM, [[1000.0, 200.0, 50.0], [250.0, 500.0, 0.0]]), "mol/m3": (u.mole / u.metre ** 3, [[1000.0, 200.0, 50.0], [250.0, 500.0, 0.0]])}
+    for label, (unit, want) in by_hand.items():
+        for kind, tab in (("lists", rows), ("object_array", np.array([[None] * 3] * 2, dtype=object))):
+            try:
+                if kind == "object_array":
+                    for i in range(2):
+                        for j in range(3):
+                            tab[i, j] = rows[i][j]
+                got = np.asarray(to_unitless(tab, unit), dtype=float)
+                if not (got.shape == (2, 3) and np.allclose(got, want, rtol=1e-12, atol=0)):
+                    tables.append((label, kind, got.tolist()))
+            except Exception as ex:
+                tables.append((label, kind, repr(ex)[:200]))
+    v.prove("state_table_in_mixed_units_is_converted_entry_by_entry", not tables, detail=repr(tables[:3]))
